@@ -216,15 +216,18 @@ theorem rawSetList_cases (cfg : Cfg) (f : Forest) (m : Meta) (its : Items) (key 
       (∃ (index : Int) (pos : Nat) (old : Tree), getKey its (Key.i pos) = some old ∧
         listReplace cfg f m index pos old ve = some r.1) ∨
       (∃ index len, listInsert cfg f m its index len ve = some r.1) ∨
-      (∃ index, listAppend cfg f m index ve = some r.1) := by
+      listAppend cfg f m its.length ve = some r.1 := by
   intro r hr
   unfold rawSetList at hr
   simp only at hr
+  by_cases hk : m.kind ≠ .list
+  · rw [if_pos hk] at hr; cases hr
+  rw [if_neg hk] at hr
   generalize listNormIndex cfg key (its.length) ins = i0 at hr
   by_cases h1 : (decide (i0 ≥ (its.length : Int)) && ve.isMissing && !ins) = true
   · rw [if_pos h1] at hr; left; cases hr; rfl
   rw [if_neg h1] at hr
-  generalize (if i0 ≥ (its.length : Int) then (its.length : Int) else i0) = idx at hr
+  generalize hidx : (if i0 ≥ (its.length : Int) then (its.length : Int) else i0) = idx at hr
   by_cases h2 : (decide (idx < (its.length : Int)) && !ins) = true
   · rw [if_pos h2] at hr
     by_cases h3 : idx < -(its.length : Int)
@@ -245,17 +248,30 @@ theorem rawSetList_cases (cfg : Cfg) (f : Forest) (m : Meta) (its : Items) (key 
   rw [if_neg h7] at hr
   by_cases h5 : idx < (its.length : Int)
   · rw [if_pos h5] at hr; right; right; left; exact ⟨_, _, (okOrCycle_ok hr).1⟩
-  · rw [if_neg h5] at hr; right; right; right; exact ⟨_, (okOrCycle_ok hr).1⟩
+  · rw [if_neg h5] at hr; right; right; right
+    have : idx = (its.length : Int) := by
+      split at hidx
+      · exact hidx.symm
+      · omega
+    rw [this] at hr; exact (okOrCycle_ok hr).1
+
+theorem rawSetList_kind (cfg : Cfg) (f : Forest) (m : Meta) (its : Items) (key : Int) (ins : Bool) (ve : VE) :
+    ∀ r, rawSetList cfg f m its key ins ve = .ok r → m.kind = .list := by
+  intro r hr
+  unfold rawSetList at hr
+  by_cases hk : m.kind ≠ .list
+  · rw [if_pos hk] at hr; cases hr
+  · exact Decidable.of_not_not hk
 
 theorem rawSetList_ok (f : Forest) (m : Meta) (its : Items) (key : Int) (ins : Bool) (ve : VE)
     (hf : f.ok = true) (hits : okItems m.id m.path its = true) :
     ∀ r, rawSetList Cfg.patched f m its key ins ve = .ok r → r.1.ok = true := by
   intro r hr
-  rcases rawSetList_cases Cfg.patched f m its key ins ve r hr with rfl | ⟨i, p, old, hold, h⟩ | ⟨i, l, h⟩ | ⟨i, h⟩
+  rcases rawSetList_cases Cfg.patched f m its key ins ve r hr with rfl | ⟨i, p, old, hold, h⟩ | ⟨i, l, h⟩ | h
   · exact hf
   · exact listReplace_ok f m its i p old ve hf hits hold _ h
   · exact listInsert_ok f m its i l ve hf _ h
-  · exact listAppend_ok f m i ve hf _ h
+  · exact listAppend_ok f m _ ve hf _ h
 
 theorem clearConsumed_ok (f : Forest) : f.clearConsumed.ok = f.ok := rfl
 
